@@ -100,6 +100,13 @@ def work_rules(ctx, prog, A):
     copies = list(f.calls('copy'))
     ctx.require(len(copies) == 1, 'work(): expected exactly one copy() call')
     hdr_is = lambda x: x[0] == 'call' and x[1] == 'ntohl'
+    # the sniffing read: xread(&<header local>, &<vacant local>) -- the two locals are known by this call
+    xr0 = list(f.calls('xread'))
+    ctx.require(len(xr0) == 1, 'work(): expected one xread')
+    _a0, _a1 = P.expr(xr0[0].ops[0]), P.expr(xr0[0].ops[1])
+    ctx.require(_a0[0] == 'addr' and _a0[1][0] == 'A' and _a1[0] == 'addr' and _a1[1][0] == 'A',
+                'work(): xread() is not applied to two locals')
+    HDR, VAC = _a0[1][1], _a1[1][1]
     g = _guards(f, P, sched_exp[0].block.name)
     lo, hi, used = _interval([(e, pol) for _, e, pol in g], hdr_is)
     ctx.ob('C19.header', 'decompressor is entered exactly for headers BZh1..BZh9', f.loc(sched_exp[0]),
@@ -112,9 +119,9 @@ def work_rules(ctx, prog, A):
         c = strip_casts(c)
         if c[0] == 'icmp' and c[1] == 'eq' and strip_casts(c[3]) == ('const', 0) and (pol == p2):
             x = strip_casts(c[2])
-            if x[0] == 'load' and addr_key(x[1]) == 'A:vacant':
+            if x[0] == 'load' and addr_key(x[1]) == 'A:' + VAC:
                 vac_ok = True
-        if c[0] == 'load' and addr_key(c[1]) == 'A:vacant' and (pol != p2):
+        if c[0] == 'load' and addr_key(c[1]) == 'A:' + VAC and (pol != p2):
             vac_ok = True
     ctx.ob('C19.header', 'decompressor is entered only after a full 4-byte header was read (vacant == 0)',
            f.loc(sched_exp[0]), vac_ok, '')
@@ -123,9 +130,9 @@ def work_rules(ctx, prog, A):
     ctx.require(len(xr) == 1, 'work(): expected one xread')
     a0, a1 = P.expr(xr[0].ops[0]), P.expr(xr[0].ops[1])
     ctx.ob('C19.header', 'sniffing read fills `header` and counts in `vacant`', f.loc(xr[0]),
-           a0[0] == 'addr' and a0[1] == ('A', 'header') and a1[0] == 'addr' and a1[1] == ('A', 'vacant'),
+           a0[0] == 'addr' and a0[1] == ('A', HDR) and a1[0] == 'addr' and a1[1] == ('A', VAC) and not a0[2] and not a1[2],
            '%s, %s' % (render(a0), render(a1)))
-    vst = [i for i in f.insns() if i.op == 'store' and P.addr(i.ops[1])[1] == ('A', 'vacant')]
+    vst = [i for i in f.insns() if i.op == 'store' and P.addr(i.ops[1])[1] == ('A', VAC)]
     ctx.ob('C19.header', 'vacant starts as sizeof(header) == 4', f.loc(), len(vst) == 1 and P.expr(vst[0].ops[0]) == ('const', 4),
            '%s' % [render(P.expr(i.ops[0])) for i in vst])
     # bs100k = ntohl(header) - MAGIC(0)
@@ -177,9 +184,9 @@ def work_rules(ctx, prog, A):
         b0 = P.expr(c.ops[0])
         sz = strip_casts(P.expr(c.ops[1]))
         detail = '%s, %s' % (render(b0), render(sz))
-        if b0[0] == 'addr' and b0[1] == ('A', 'header') and sz[0] == 'bin' and sz[1] == 'sub' and \
+        if b0[0] == 'addr' and b0[1] == ('A', HDR) and sz[0] == 'bin' and sz[1] == 'sub' and \
                 strip_casts(sz[2]) == ('const', 4) and strip_casts(sz[3])[0] == 'load' and \
-                addr_key(strip_casts(sz[3])[1]) == 'A:vacant':
+                addr_key(strip_casts(sz[3])[1]) == 'A:' + VAC:
             ok = True
     ctx.ob('C19.firstwrite', 'the sniffed bytes are written first, with length sizeof(header) - vacant', f.loc(copies[0]),
            ok, detail)
